@@ -102,6 +102,10 @@ TABLE = {
             'Static: in the decision continuation the apply-sets are reachable exactly for qualified ∧ authenticated, the postponed list exactly for qualified ∧ ¬authenticated, nothing otherwise (exhaustive over the 8 combinations); the three tests compare the sender\'s bare JID with the own bare JID / key owner JID and the trust level delivered for (encryption, sender, e2ee sender key) with Authenticated; '
             'own-device reflections and non-ATM elements are ignored; authenticate()/distrust()/makePostponedTrustDecisions()/setTrustLevel(Authenticated) have closed caller sets; postponed decisions are fired only after authentication with the just-authenticated keys, removed before being applied and discarded by distrust; the policy arm is guarded.',
             'Conformance to the XEP-0450 reference model over all histories of decisions, and the correctness of the storage back-ends, are not decided.', 'DESIGN.md §2 C18'),
+    'C19': ('type-width agreement between the wire field and the per-job counters (record facts), abstract evaluation of the receiving handlers and of the final verdict under hostile inputs, who-may-declare-success call-structure rule',
+            'Static: the IBB block counter, the receiver\'s expectation and QXmppIbbDataIq::m_seq have the same unsigned 16-bit type (so both sides wrap at 65536); in ibbDataIqReceived a block is written and the expectation advanced only for a job found by (sender, session id) in transfer state with the expected sequence number, rejected blocks get an error reply; the open handler bounds the block size; the close handler and the SOCKS5 paths delegate the verdict to checkData(); '
+            'checkData() cannot reach terminate(NoError) when a size was announced and differs or a hash was announced and differs; writeData counts the bytes the device accepted and hashes the same buffer.',
+            'Byte-for-byte equality of delivered and sent content for all sizes and loss patterns, and detection of corruption when the offer carries neither size nor hash, are not decided.', 'DESIGN.md §2 C19'),
 }
 
 NOT_APPLICABLE_REASON = 'check not built yet in this session (see DESIGN.md); listed here until qxverif/rules/<id>.py exists'
